@@ -62,10 +62,16 @@ def main():
                     print('%-4s %-40s PATCH DOES NOT APPLY: %s' % (pid, name, p.stdout + p.stderr))
                     bad += 1
                     continue
-                rc, out = run_check(pid, tree, args.tier)
+                # a change is caught if the check of its own property reports it, or -- when meta.json names other checks under
+                # 'check_with' (the defect lives in code another property is anchored in) -- one of those
                 total += 1
-                ok = rc == 1 and 'VIOLATION property=%s' % pid in out
-                print('%-4s %-40s %s' % (pid, name, 'caught' if ok else 'MISSED (exit %d)' % rc))
+                ok, by = False, ''
+                for q in meta.get('check_with', [pid]):
+                    rc, out = run_check(q, tree, args.tier)
+                    if rc == 1 and 'VIOLATION property=%s' % q in out:
+                        ok, by = True, ('' if q == pid else ' by ' + q)
+                        break
+                print('%-4s %-40s %s' % (pid, name, ('caught' + by) if ok else 'MISSED (exit %d)' % rc))
                 if args.v or not ok:
                     print('\n'.join('      ' + l for l in out.splitlines() if 'violated' in l or 'VIOLATION' in l or 'HARNESS' in l)[:3000])
                 bad += 0 if ok else 1
